@@ -225,11 +225,13 @@ func main() {
 	violations := 0
 	replayCache := map[string]replay.Outcome{}
 	var replays []map[string]any
+	knownReported := []map[string]string{}
 	for _, f := range failed {
 		matched := false
 		for _, k := range known {
 			if k.Status == "open" && k.Property == *prop && strings.HasPrefix(stripWhere(f.Name), k.Obligation) {
 				fmt.Printf("KNOWN-FINDING: property=%s %s (%s)\n", *prop, k.What, k.Obligation)
+				knownReported = append(knownReported, map[string]string{"obligation": f.Name, "listed_as": k.Obligation, "what": k.What})
 				matched = true
 				break
 			}
@@ -333,6 +335,7 @@ func main() {
 				"undischarged":             und,
 				"replays_of_failed_obligations": replays,
 				"undecided":                undecided,
+				"known_findings_reported":  knownReported,
 				"engine_abstractions_hit":  abs,
 				"notes":                    notes,
 				"samples":                  samples,
